@@ -14,8 +14,11 @@ listed known finding is a VIOLATION whose replay is the probing call; an opt-out
 work is a VIOLATION always.  The witnesses of the repaired findings (status "fixed": the silent
 options and ineffective opt-outs repaired by d0b630a, 08d4d98, b1f1430, a8af69f, 1dab744, 51ec724,
 4a36577, 612f87a, top-level `$not` by b0b21d1, the three positions that validated nothing by
-6c55e75 / 1244abc / 6c1d985, two lazy expression contexts by fce7e55) are probed again on every
-run (`judge_fixed`).
+6c55e75 / 1244abc / 6c1d985, two lazy expression contexts by fce7e55, the accumulator names of
+`$group` / `$bucket` on an empty collection by 6f29a71) are probed again on every run
+(`judge_fixed`).  Empty input: every name a consumer site refuses on the populated collection is
+tried again on an empty one (`judge_empty`): a refusal that is not repeated there is a VIOLATION
+unless the site is a listed `lazy-empty:<site>` finding (the expression parts of the stages).
 """
 import collections
 import json
@@ -39,7 +42,8 @@ RULE = ('case = one (position, name) pair [every $-name of the MongoDB 5.0 vocab
         'A, option B, A opted out?) tuple [both options present, B never opted out, every '
         'ordered pair of distinct options the method accepts]; non-trivial = the '
         'probing calls reached the dispatching function of the position (counted by wrapping '
-        '_Filterer.apply, _Parser.parse, process_pipeline, _accumulate_group, '
+        '_Filterer.apply, _Parser.parse, process_pipeline, _accumulate_group and its pre-check '
+        '_validate_accumulators, '
         'Collection._apply_update), resp. the method runs without the option so that the '
         'outcome with the option is due to the option')
 
@@ -53,8 +57,10 @@ ASSUMPTIONS = [
     'chosen so that an implementation has to change the result',
     'expression operators are probed on a non-empty collection (on an empty one no expression is '
     'ever parsed: stages validate lazily); the same holds for the consumer sites of the pipeline '
-    'language, which are probed on the populated collection (the empty one is used only for the '
-    'calls nothing reaches otherwise); projection operators of find() are not probed',
+    'language, which are probed on the populated collection; the names a site refuses there are '
+    'tried again, with the same calls, on the empty collection (what is NOT refused on the '
+    'populated collection is not looked at on the empty one); projection operators of find() are '
+    'not probed',
     'consumer sites: the parts of a stage specification that reach a dispatcher are found by '
     'running every stage that has a handler on ONE fully-optioned specification '
     '(extract_sites.STAGE_FIXTURES, else the argument shapes of the vocabulary file); a call of '
@@ -85,6 +91,14 @@ def known_site_pairs():
     return sorted(out)
 
 
+def known_lazy_empty():
+    """[site id] listed as known findings `lazy-empty:<site>`: a name refused on a populated
+    collection is let through there when the collection is empty"""
+    return sorted(e['witness']['site'] for e in common.load_known('C20')
+                  if e.get('status') == 'known' and
+                  (e.get('witness') or {}).get('kind') == 'lazyempty')
+
+
 def known_lists():
     """(position, name) pairs and options listed as KNOWN findings.  An opt-out that does not
     work, and a position at which every unknown name is accepted (`ignored:<position>:*`), have no
@@ -95,7 +109,7 @@ def known_lists():
         if e.get('status') != 'known':
             continue
         w = e['witness']
-        if w['kind'] == 'lazyctx':
+        if w['kind'] in ('lazyctx', 'lazyempty'):
             continue
         if w['kind'] == 'vocab' and str(w['position']).startswith('site:'):
             continue
@@ -125,7 +139,7 @@ def regenerate(ctx):
             ('Tables.lean', gen_c20_lean.emit_tables(T)),
             ('Vocab.lean', gen_c20_lean.emit_vocab(T, entries, kpairs)),
             ('Sites.lean', gen_c20_lean.emit_sites(T, derived, site_entries,
-                                                   known_site_pairs())),
+                                                   known_site_pairs(), known_lazy_empty())),
             ('Options.lean', gen_c20_lean.emit_options(opts, ksilent, pairs))):
         if gen_c20_lean.write_if_changed(os.path.join(GEN, fname), text):
             changed.append(fname)
@@ -204,6 +218,37 @@ def judge_vocab(ctx, entries, kpairs, ksites=()):
                 kind = 'a name that nothing implements is accepted silently instead of raising'
             ctx.violation(vocab_replay(e, kind),
                           rank=_name_rank(ctx, e['name']) + len(e['probe'] or ''))
+    return bad
+
+
+def empty_replay(e, kind):
+    out = vocab_replay(e, kind)
+    out.update(what='site-empty', probe=e['empty_probe'], on_empty=e['on_empty'],
+               raises_on_a_populated_collection=e['probe'],
+               python='import mongomock; db = mongomock.MongoClient().db  # collection c EMPTY, '
+                      'the others as in harness/extract_vocab.fresh_db()\n' +
+                      (e['empty_probe'] or ''))
+    return out
+
+
+def judge_empty(ctx, site_entries, klazy):
+    """a name that a site refuses on a populated collection must be refused on an empty one"""
+    bad = []
+    for e in site_entries:
+        if e.get('on_empty') != 'silent':
+            continue
+        sid = e['pos'][5:]
+        if sid in klazy:
+            fid = 'lazy-empty:' + sid
+            ctx.known_seen[fid] = ctx.known_seen.get(fid, 0) + 1
+            continue
+        bad.append(e)
+        if ctx.too_many():
+            continue
+        ctx.violation(empty_replay(
+            e, 'the stage refuses the name only while it reads documents: on an empty collection '
+               'the same call returns as if the name were supported'),
+            rank=_name_rank(ctx, e['name']) + len(e['empty_probe'] or ''))
     return bad
 
 
@@ -344,7 +389,7 @@ def random_name_sample(ctx, T, V, n):
     for key in ('operatorMap', 'logicalOps', 'topLevelNI', 'fieldNI', 'updaters', 'updateInline',
                 'updateChecked',
                 'pushModifiers', 'stagesImpl', 'stagesNone', 'exprNI', 'groupingMap',
-                'groupInline', 'groupOperators'):
+                'groupInline', 'groupOperators', 'groupChecked'):
         taken.update(T[key])
     for h in T['exprChain']:
         taken.update(h['names'])
@@ -423,6 +468,17 @@ def judge_fixed(ctx):
                          'not opted out)' if not w['opted_out'] else
                     'a repaired finding is back: the option still raises NotImplementedError '
                     'although the caller has opted out with ignore_feature')
+        elif w['kind'] == 'lazyempty':
+            now = extract_sites.probe_one(w['site'], w['dispatcher_position'], w['name'])
+            if now is None and '~' in w['site']:
+                # the part of the stage has one consumer only (again): the id has no `~helper`
+                now = extract_sites.probe_one(w['site'].split('~')[0], w['dispatcher_position'],
+                                              w['name'])
+            if now is None:
+                gone.append('%s: the source no longer has this site' % e['id'])
+            elif now['on_empty'] == 'silent':
+                rep = empty_replay(now, 'a repaired finding is back: the stage refuses the name '
+                                        'only while it reads documents')
         elif w['kind'] == 'lazyctx':
             if lazy_silent is None:
                 lazy_silent = c20_lazyctx.silent_contexts()
@@ -472,6 +528,8 @@ def run(ctx, proof, driver_ok):
         e['site_info'] = info[e['site']]
     bad_vocab = judge_vocab(ctx, entries, kpairs)
     bad_sites = judge_vocab(ctx, site_entries, kpairs, ksites)
+    klazy = known_lazy_empty()
+    bad_empty = judge_empty(ctx, site_entries, klazy)
     site_list_problems = judge_site_list(ctx, derived)
     bad_opts = judge_options(ctx, opts, ksilent)
     pairs = st.get('pairs') or []
@@ -510,6 +568,7 @@ def run(ctx, proof, driver_ok):
             mism_extra = compare_with_model(ctx, extra_entries, 'random')
             judge_vocab(ctx, extra_entries, kpairs)
             judge_vocab(ctx, extra_site_entries, kpairs, ksites)
+            bad_empty += judge_empty(ctx, extra_site_entries, klazy)
             mism_sites = compare_sites_with_model(site_entries + extra_site_entries)
             model = {'available': True, 'table_entries_compared': len(entries),
                      'random_names': len(names), 'random_entries_compared': len(extra_entries),
@@ -604,6 +663,11 @@ def run(ctx, proof, driver_ok):
         'site_entries_not_reaching_dispatch': len([e for e in all_sites if not e['reached']]),
         'site_list_problems': site_list_problems,
         'unlisted_ignored_site_entries': len(bad_sites),
+        'site_refusals_tried_on_empty_collection': dict(collections.Counter(
+            e['on_empty'] for e in all_sites if e.get('on_empty', 'notProbed') != 'notProbed')),
+        'sites_silent_on_empty_collection': sorted({e['pos'][5:] for e in all_sites
+                                                    if e.get('on_empty') == 'silent'}),
+        'unlisted_silent_on_empty_entries': len(bad_empty),
         'lazy_expression_contexts': lazy,
         'repaired_findings': fixed,
         'table_entries': len(entries),
@@ -631,15 +695,18 @@ def run(ctx, proof, driver_ok):
 def replay(ctx, path):
     e = json.load(open(path))
     kpairs, ksilent = known_lists()
-    if e.get('what') == 'vocab' and str(e.get('position', '')).startswith('site:'):
+    if e.get('what') in ('vocab', 'site-empty') and \
+            str(e.get('position', '')).startswith('site:'):
         now = extract_sites.probe_one(e['position'][5:], e['dispatcher_position'], e['name'])
         print(json.dumps(now and {k: now[k] for k in ('pos', 'base', 'name', 'disp', 'in_table',
-                                                      'errors', 'returned', 'probe')}))
+                                                      'errors', 'returned', 'probe', 'on_empty',
+                                                      'empty_probe')}))
         ctx.c20 = {'meta': {'kinds': {}}}
         if now is None:
             print(json.dumps({'note': 'the source no longer has this site', 'file': path}))
         else:
             judge_vocab(ctx, [now], kpairs, known_site_pairs())
+            judge_empty(ctx, [now], known_lazy_empty())
             if not ctx.violations and e.get('model') is not None and os.path.exists(wire.DRIVER):
                 for _, m in compare_sites_with_model([now]):
                     ctx.violation(dict(vocab_replay(now, 'correspondence broken'), model=m),
@@ -681,6 +748,9 @@ def replay_finding(ctx, e):
     if w['kind'] == 'lazyctx':
         import c20_lazyctx
         return w['context'] in c20_lazyctx.silent_contexts()
+    if w['kind'] == 'lazyempty':
+        now = extract_sites.probe_one(w['site'], w['dispatcher_position'], w['name'])
+        return now is not None and now['on_empty'] == 'silent'
     if w['kind'] == 'vocab' and str(w['position']).startswith('site:'):
         now = extract_sites.probe_one(w['position'][5:], w['dispatcher_position'], w['name'])
         return now is not None and now['disp'] == 'ignored'
